@@ -8,7 +8,7 @@ from vcore import fhex, qdy, qopt, glist, gvec, gmat, gtup
 
 HEADER = """From Coq Require Import List ZArith QArith Bool.
 From Coq Require Import PrimFloat.
-From ML Require Import Ops Vec NP QIO FloatIO CaseDefs.
+From ML Require Import Ops Vec NP QIO FloatIO CaseDefs CaseDefsQuery.
 Import ListNotations.
 Local Open Scope Z_scope.
 """
